@@ -111,20 +111,22 @@ Lemma join_rel3 a c c1 : noslash a -> fields_by 47 c = [c1] ->
   match clean_rel (filter nonempty_b [a] ++ [s_msg_word; c1]) [] with [] => s_dot | cs => join_slash cs end.
 Proof.
   intros Ha Hc. destruct c as [|c0 cr]; [discriminate Hc|].
-  rewrite fields_filter in Hc. unfold join_rel.
+  rewrite fields_filter in Hc. unfold join_rel. rewrite s_msg_word_eq.
   destruct a as [|a0 ar].
-  - cbn [filter nonempty_b]. rewrite s_msg_word_eq.
-    cbn [filter nonempty_b join_slash app]. change (is_byte x6d 47) with false. cbv iota.
+  - cbn [filter nonempty_b join_slash app]. change (is_byte x6d 47) with false. cbv iota.
     change (x6d :: x73 :: x67 :: x2f :: c0 :: cr) with ([x6d; x73; x67] ++ x2f :: c0 :: cr).
     rewrite split_sep by reflexivity. rewrite clean_rel_filter.
     cbn [filter nonempty_b app]. rewrite Hc. reflexivity.
   - cbn [filter nonempty_b join_slash]. cbn [app]. unfold noslash in Ha. simpl in Ha.
     apply orb_false_iff in Ha. destruct Ha as [Ha0 Har]. rewrite Ha0. cbv iota.
-    change (a0 :: ar ++ x2f :: s_msg_word ++ x2f :: c0 :: cr) with ((a0 :: ar) ++ x2f :: s_msg_word ++ x2f :: c0 :: cr).
+    change (a0 :: ar ++ x2f :: x6d :: x73 :: x67 :: x2f :: c0 :: cr)
+      with ((a0 :: ar) ++ x2f :: [x6d; x73; x67] ++ x2f :: c0 :: cr).
     rewrite split_sep; [|simpl; rewrite Ha0, Har; reflexivity|reflexivity].
     rewrite split_sep by reflexivity. rewrite clean_rel_filter.
-    cbn [filter nonempty_b]. rewrite s_msg_word_eq. cbn [filter nonempty_b app]. rewrite Hc. reflexivity.
+    cbn [filter nonempty_b app]. rewrite Hc. reflexivity.
 Qed.
+
+Ltac fall := repeat (apply Forall_cons; [assumption|]); apply Forall_nil.
 
 Lemma dot_fields : fields_by 47 s_dot = [s_dot]. Proof. reflexivity. Qed.
 
@@ -145,7 +147,7 @@ Proof.
     cbv iota.
     destruct (bytes_eqb (d0 :: dr) s_dot); [simpl; intros; lia|].
     destruct (bytes_eqb (d0 :: dr) s_dotdot); [simpl; intros; lia|].
-    cbn [rev app]. rewrite fields_join_slash by (repeat constructor; auto; apply Hc1). simpl. intros; lia.
+    cbn [rev app]. rewrite fields_join_slash by fall. simpl. intros; lia.
   - assert (Hao : comp_ok (a0 :: ar)) by (split; [discriminate|exact Ha]).
     cbn [filter nonempty_b app]. rewrite s_msg_word_eq in *. cbn [clean_rel].
     change (bytes_eqb [x6d; x73; x67] s_dot) with false. change (bytes_eqb [x6d; x73; x67] s_dotdot) with false.
@@ -153,21 +155,874 @@ Proof.
     + cbv iota.
       destruct (bytes_eqb (d0 :: dr) s_dot); [simpl; intros; lia|].
       destruct (bytes_eqb (d0 :: dr) s_dotdot); [simpl; intros; lia|].
-      cbn [rev app]. rewrite fields_join_slash by (repeat constructor; auto). simpl. intros; lia.
+      cbn [rev app]. rewrite fields_join_slash by fall. simpl. intros; lia.
     + apply bytes_eqb_false in Ea1.
       destruct (bytes_eqb (a0 :: ar) s_dotdot) eqn:Ea2; cbv iota.
       * destruct (bytes_eqb (d0 :: dr) s_dot).
-        { cbn [rev app]. rewrite fields_join_slash by (repeat constructor; auto). simpl. intros; lia. }
+        { cbn [rev app]. rewrite fields_join_slash by fall. simpl. intros; lia. }
         destruct (bytes_eqb (d0 :: dr) s_dotdot).
         { change (bytes_eqb [x6d; x73; x67] s_dotdot) with false. cbv iota. cbn [rev app].
-          rewrite fields_join_slash by (repeat constructor; auto). simpl. intros; lia. }
-        cbn [rev app]. rewrite fields_join_slash by (repeat constructor; auto). intros _.
+          rewrite fields_join_slash by fall. simpl. intros; lia. }
+        cbn [rev app]. rewrite fields_join_slash by fall. intros _.
         repeat split; auto. discriminate.
       * destruct (bytes_eqb (d0 :: dr) s_dot).
-        { cbn [rev app]. rewrite fields_join_slash by (repeat constructor; auto). simpl. intros; lia. }
+        { cbn [rev app]. rewrite fields_join_slash by fall. simpl. intros; lia. }
         destruct (bytes_eqb (d0 :: dr) s_dotdot).
         { change (bytes_eqb [x6d; x73; x67] s_dotdot) with false. cbv iota. cbn [rev app].
-          rewrite fields_join_slash by (repeat constructor; auto). simpl. intros; lia. }
-        cbn [rev app]. rewrite fields_join_slash by (repeat constructor; auto). intros _.
+          rewrite fields_join_slash by fall. simpl. intros; lia. }
+        cbn [rev app]. rewrite fields_join_slash by fall. intros _.
         repeat split; auto. discriminate.
+Qed.
+
+(* ------------------------------------------------------------------------------------------ *)
+(* the file system                                                                             *)
+
+Lemma comps_eqb_eq a : forall b, comps_eqb a b = true -> a = b.
+Proof.
+  induction a as [|x a IH]; intros [|y b]; simpl; try discriminate; auto.
+  rewrite andb_true_iff, bytes_eqb_eq. intros [-> H]. f_equal. auto.
+Qed.
+
+Lemma comps_eqb_refl a : comps_eqb a a = true.
+Proof. induction a as [|x a IH]; simpl; auto. rewrite bytes_eqb_refl. exact IH. Qed.
+
+Lemma find_file_In p fs c : find_file p fs = Some c -> In (p, c) fs.
+Proof.
+  induction fs as [|[q c'] r IH]; simpl; [discriminate|].
+  destruct (comps_eqb p q) eqn:E; [|auto].
+  intros H. injection H as ->. apply comps_eqb_eq in E. subst. auto.
+Qed.
+
+Lemma read_file_In t p c : read_file t p = FsOk c -> In (p, c) (ft_files t).
+Proof.
+  unfold read_file. destruct (find_file p (ft_files t)) eqn:E.
+  - intros H. injection H as ->. apply find_file_In. exact E.
+  - destruct (_ || _); [discriminate|]. destruct (existsb _ _); discriminate.
+Qed.
+
+Lemma find_line_In base lines l : find_line base lines = Some l -> In l lines /\ base_name l = base ++ s_dot_msg.
+Proof.
+  induction lines as [|x r IH]; simpl; [discriminate|].
+  destruct (bytes_eqb (base_name x) (base ++ s_dot_msg)) eqn:E.
+  - intros H. injection H as ->. apply bytes_eqb_eq in E. auto.
+  - intros H. destruct (IH H). auto.
+Qed.
+
+Definition idx_path (d : list bytes) (P : bytes) : list bytes :=
+  join_dir d [s_share; s_ament_index; s_resource_index; s_rosidl; P].
+
+Lemma get_schema_dirs_fine t P C dirs : no_crash (get_schema_dirs t P C dirs) = true.
+Proof.
+  induction dirs as [|d r IH]; simpl; auto.
+  destruct (read_file t _); auto. destruct (find_line _ _); auto. destruct (read_file t _); auto.
+Qed.
+
+Lemma get_schema_dirs_ok t P C dirs sc : get_schema_dirs t P C dirs = Ok sc ->
+  exists d idx line, In d dirs /\ In (idx_path d P, idx) (ft_files t) /\ In line (split_byte 10 idx) /\
+                     base_name line = C ++ s_dot_msg.
+Proof.
+  induction dirs as [|d r IH]; simpl; [discriminate|].
+  destruct (read_file t (join_dir d [s_share; s_ament_index; s_resource_index; s_rosidl; P])) as [idx| |] eqn:Er.
+  - destruct (find_line C (split_byte 10 idx)) as [line|] eqn:El.
+    + intros _. apply read_file_In in Er. apply find_line_In in El. destruct El.
+      exists d, idx, line. auto.
+    + intros H. destruct (IH H) as (d' & idx' & line & H1 & H2). exists d', idx', line. tauto.
+  - intros H. destruct (IH H) as (d' & idx' & line & H1 & H2). exists d', idx', line. tauto.
+  - discriminate.
+Qed.
+
+(* getSchema never crashes *)
+Theorem get_schema_fine t dirs q : no_crash (get_schema t dirs q) = true.
+Proof.
+  unfold get_schema. destruct (fields_by 47 q) as [|a [|b [|c r]]]; auto. apply get_schema_dirs_fine.
+Qed.
+
+Lemma get_schema_ok t dirs q sc : get_schema t dirs q = Ok sc ->
+  exists P m C r, fields_by 47 q = P :: m :: C :: r /\ get_schema_dirs t P C dirs = Ok sc.
+Proof.
+  unfold get_schema. destruct (fields_by 47 q) as [|a [|b [|c r]]]; try discriminate.
+  intros H. exists a, b, c, r. auto.
+Qed.
+
+(* the lines of all files, keyed by the path of the file *)
+Definition keys (t : fstree) : list (list bytes * bytes) :=
+  flat_map (fun f => map (fun l => (fst f, base_name l)) (split_byte 10 (snd f))) (ft_files t).
+
+Lemma split_aux_length sep s : forall cur, length (split_byte_aux sep s cur) <= S (length s).
+Proof.
+  induction s as [|b r IH]; intros cur; simpl; [lia|].
+  destruct (is_byte b sep); simpl; [specialize (IH []); lia|specialize (IH (b :: cur)); lia].
+Qed.
+
+Fixpoint sum_weight (l : list (list bytes * bytes)) : nat :=
+  match l with [] => 0 | f :: r => S (length (snd f)) + sum_weight r end.
+
+Lemma fold_weight (l : list (list bytes * bytes)) : forall a,
+  fold_left (fun n f => n + S (length (snd f))) l a = a + sum_weight l.
+Proof.
+  induction l as [|f l IH]; intros a; cbn [fold_left sum_weight]; [lia|]. rewrite IH, Nat.add_assoc. reflexivity.
+Qed.
+
+Lemma keys_weight t : length (keys t) + 2 <= fs_weight t.
+Proof.
+  unfold fs_weight, keys. rewrite fold_weight.
+  assert (H : forall l : list (list bytes * bytes),
+            length (flat_map (fun f => map (fun l => (fst f, base_name l)) (split_byte 10 (snd f))) l)
+            <= sum_weight l).
+  { induction l as [|f l IH]; cbn [flat_map sum_weight]; [simpl; lia|]. rewrite !app_length, map_length.
+    pose proof (split_aux_length 10 (snd f) []). unfold split_byte, bytes in *. lia. }
+  specialize (H (ft_files t)). lia.
+Qed.
+
+Lemma keys_In t p idx line : In (p, idx) (ft_files t) -> In line (split_byte 10 idx) -> In (p, base_name line) (keys t).
+Proof.
+  intros H1 H2. unfold keys. apply in_flat_map. exists (p, idx). split; auto.
+  simpl. apply in_map_iff. exists line. auto.
+Qed.
+
+(* the index path of a package name *)
+Lemma clean_rooted_push c r st : c <> [] -> c <> s_dot -> c <> s_dotdot ->
+  clean_rooted (c :: r) st = clean_rooted r (c :: st).
+Proof.
+  intros H1 H2 H3. destruct c; [congruence|]. cbn [clean_rooted].
+  apply bytes_eqb_false in H2, H3. rewrite H2, H3. reflexivity.
+Qed.
+
+Definition normalP (P : bytes) : Prop := P <> [] /\ P <> s_dot /\ noslash P.
+
+Lemma idx_path_eq d P : normalP P ->
+  idx_path d P = if bytes_eqb P s_dotdot then d ++ [s_share; s_ament_index; s_resource_index]
+                 else d ++ [s_share; s_ament_index; s_resource_index; s_rosidl; P].
+Proof.
+  intros (H1 & H2 & H3). unfold idx_path, join_dir. cbn [map concat].
+  change (split_byte 47 s_share) with [s_share]. change (split_byte 47 s_ament_index) with [s_ament_index].
+  change (split_byte 47 s_resource_index) with [s_resource_index]. change (split_byte 47 s_rosidl) with [s_rosidl].
+  rewrite (split_nosep 47 P H3). cbn [app].
+  rewrite !clean_rooted_push by (intro X; vm_compute in X; discriminate X).
+  destruct P as [|p0 pr]; [congruence|]. cbn [clean_rooted].
+  apply bytes_eqb_false in H2. rewrite H2.
+  destruct (bytes_eqb (p0 :: pr) s_dotdot); cbn [clean_rooted tl rev app]; rewrite rev_involutive, <- !app_assoc; reflexivity.
+Qed.
+
+Lemma idx_path_inj d P d' P' : normalP P -> normalP P' -> idx_path d P = idx_path d' P' -> P = P'.
+Proof.
+  intros HP HP'. rewrite (idx_path_eq d P HP), (idx_path_eq d' P' HP').
+  destruct (bytes_eqb P s_dotdot) eqn:E1; destruct (bytes_eqb P' s_dotdot) eqn:E2.
+  - apply bytes_eqb_eq in E1, E2. congruence.
+  - intros H. exfalso.
+    change (d ++ [s_share; s_ament_index; s_resource_index]) with (d ++ [s_share; s_ament_index] ++ [s_resource_index]) in H.
+    change (d' ++ [s_share; s_ament_index; s_resource_index; s_rosidl; P'])
+      with (d' ++ [s_share; s_ament_index; s_resource_index; s_rosidl] ++ [P']) in H.
+    rewrite !app_assoc in H. apply app_inj_tail in H. destruct H as [H _].
+    change ((d ++ [s_share; s_ament_index])) with (d ++ [s_share] ++ [s_ament_index]) in H.
+    change (d' ++ [s_share; s_ament_index; s_resource_index; s_rosidl])
+      with (d' ++ [s_share; s_ament_index; s_resource_index] ++ [s_rosidl]) in H.
+    rewrite !app_assoc in H. apply app_inj_tail in H. destruct H as [_ H]. vm_compute in H. discriminate H.
+  - intros H. exfalso. symmetry in H.
+    change (d' ++ [s_share; s_ament_index; s_resource_index]) with (d' ++ [s_share; s_ament_index] ++ [s_resource_index]) in H.
+    change (d ++ [s_share; s_ament_index; s_resource_index; s_rosidl; P])
+      with (d ++ [s_share; s_ament_index; s_resource_index; s_rosidl] ++ [P]) in H.
+    rewrite !app_assoc in H. apply app_inj_tail in H. destruct H as [H _].
+    change ((d' ++ [s_share; s_ament_index])) with (d' ++ [s_share] ++ [s_ament_index]) in H.
+    change (d ++ [s_share; s_ament_index; s_resource_index; s_rosidl])
+      with (d ++ [s_share; s_ament_index; s_resource_index] ++ [s_rosidl]) in H.
+    rewrite !app_assoc in H. apply app_inj_tail in H. destruct H as [_ H]. vm_compute in H. discriminate H.
+  - intros H.
+    change (d ++ [s_share; s_ament_index; s_resource_index; s_rosidl; P])
+      with (d ++ [s_share; s_ament_index; s_resource_index; s_rosidl] ++ [P]) in H.
+    change (d' ++ [s_share; s_ament_index; s_resource_index; s_rosidl; P'])
+      with (d' ++ [s_share; s_ament_index; s_resource_index; s_rosidl] ++ [P']) in H.
+    rewrite !app_assoc in H. apply app_inj_tail in H. tauto.
+Qed.
+
+(* ------------------------------------------------------------------------------------------ *)
+(* a qualified type that getSchema accepts determines a line of an index file                  *)
+
+Definition keyrel (q : bytes) (k : list bytes * bytes) : Prop :=
+  exists P C d, q = join_slash [P; s_msg_word; C] /\ normalP P /\ fst k = idx_path d P /\ snd k = C ++ s_dot_msg.
+
+Definition good (t : fstree) (q : bytes) : Prop := exists k, In k (keys t) /\ keyrel q k.
+
+Lemma keyrel_inj q q' k : keyrel q k -> keyrel q' k -> q = q'.
+Proof.
+  intros (P & C & d & -> & HP & H1 & H2) (P' & C' & d' & -> & HP' & H1' & H2').
+  rewrite H1 in H1'. rewrite H2 in H2'. apply idx_path_inj in H1'; auto. apply app_inv_tail in H2'. congruence.
+Qed.
+
+Lemma pigeon_aux {A B} (R : A -> B -> Prop) (inj : forall a a' b, R a b -> R a' b -> a = a') :
+  forall l l', Forall2 R l l' -> NoDup l -> NoDup l'.
+Proof.
+  induction 1 as [|a b l l' Hab HF IH]; intros Hnd; [constructor|].
+  inversion Hnd; subst. constructor; auto.
+  intros Hin.
+  assert (H : exists a', In a' l /\ R a' b).
+  { clear -HF Hin. induction HF as [|x y l l' Hxy HF IH]; simpl in *; [tauto|].
+    destruct Hin as [->|Hin]; [eauto|]. destruct (IH Hin) as (a' & ? & ?); eauto. }
+  destruct H as (a' & Hin' & Hr). rewrite (inj _ _ _ Hab Hr) in *. contradiction.
+Qed.
+
+Lemma Forall2_len {A B} (R : A -> B -> Prop) l l' : Forall2 R l l' -> length l = length l'.
+Proof. induction 1; simpl; auto. Qed.
+
+Lemma pigeon {A B} (R : A -> B -> Prop) (U : list B) :
+  (forall a a' b, R a b -> R a' b -> a = a') ->
+  forall l, NoDup l -> Forall (fun a => exists b, In b U /\ R a b) l -> length l <= length U.
+Proof.
+  intros inj l Hnd Hl.
+  assert (H : exists l', Forall2 R l l' /\ incl l' U).
+  { clear Hnd. induction Hl as [|a l (b & Hb & Hab) _ (l' & H1 & H2)]; [exists []; split; [constructor|intros x []]|].
+    exists (b :: l'). split; [constructor; auto|]. intros x [<-|Hx]; auto. }
+  destruct H as (l' & H1 & H2).
+  rewrite (Forall2_len _ _ _ H1). apply NoDup_incl_length; auto. eapply pigeon_aux; eauto.
+Qed.
+
+Lemma good_bound t l : NoDup l -> Forall (good t) l -> length l <= length (keys t).
+Proof. intros. apply (pigeon keyrel (keys t)); auto. intros a a' b. apply keyrel_inj. Qed.
+
+(* ------------------------------------------------------------------------------------------ *)
+(* one line of a definition                                                                    *)
+
+Definition parent_of (sd : subdef) : bytes :=
+  match split_byte 47 (sd_type sd) with p :: _ :: _ => p | _ => sd_parent sd end.
+
+(* None: nothing to look up (empty, comment, primitive); Some q: a field of the qualified type q *)
+Definition line_ref (parent raw : bytes) : outcome (option bytes) :=
+  let line := trim_space raw in
+  match line with
+  | [] => Ok None
+  | b :: _ =>
+    if is_byte b 35 then Ok None else
+    match fields_by 32 line with
+    | [] => Err EOther
+    | ft0 :: _ =>
+      let ft := cut_at 60 (cut_at 91 ft0) in
+      if is_primitive ft then Ok None else
+      if match fields_by 47 ft with [] => true | _ => false end then Err EOther else
+      let* q := field_to_qualified ft parent in Ok (Some q)
+    end
+  end.
+
+Definition enqueue (parent q sc : bytes) (seen : list bytes) (queue : list subdef) : list bytes * list subdef :=
+  if mem_b q seen then (seen, queue)
+  else (seen ++ [q], queue ++ [{| sd_parent := parent; sd_type := q; sd_schema := sc |}]).
+
+Lemma scan_lines_cons t dirs sd raw rest seen queue :
+  scan_lines t dirs sd (raw :: rest) seen queue =
+  match line_ref (parent_of sd) raw with
+  | Ok None => scan_lines t dirs sd rest seen queue
+  | Ok (Some q) =>
+    let* sc := get_schema t dirs q in
+    scan_lines t dirs sd rest (fst (enqueue (parent_of sd) q sc seen queue)) (snd (enqueue (parent_of sd) q sc seen queue))
+  | Err e => Err e
+  | Panic s => Panic s
+  | Exit s => Exit s
+  | OutOfFuel => OutOfFuel
+  end.
+Proof.
+  unfold line_ref, enqueue. cbn [scan_lines]. fold (parent_of sd).
+  destruct (trim_space raw) as [|b l0]; [reflexivity|].
+  destruct (is_byte b 35); [reflexivity|].
+  destruct (fields_by 32 (b :: l0)) as [|ft0 fr]; [reflexivity|]. cbv zeta.
+  destruct (is_primitive _); [reflexivity|].
+  destruct (fields_by 47 _) eqn:Ef; [reflexivity|]. cbv iota.
+  destruct (field_to_qualified _ _) as [q| | | |]; try reflexivity.
+  cbn [bind]. destruct (get_schema t dirs q); try reflexivity. cbn [bind].
+  destruct (mem_b q seen); reflexivity.
+Qed.
+
+Lemma field_to_qualified_ok ft parent : fields_by 47 ft <> [] -> noslash parent ->
+  exists a c c1, field_to_qualified ft parent = Ok (join_rel [a; s_msg_word; c]) /\ noslash a /\ fields_by 47 c = [c1].
+Proof.
+  intros Hne Hp. unfold field_to_qualified. destruct (fields_by 47 ft) as [|p0 [|p1 r]] eqn:Ef; [congruence| |].
+  - exists parent, ft, p0. auto.
+  - destruct (fields_comps 47 ft p0) as [Ha Hb]; [rewrite Ef; simpl; auto|].
+    destruct (fields_comps 47 ft p1) as [Hc Hd]; [rewrite Ef; simpl; auto|].
+    exists p0, p1, p1. split; auto. split; auto. apply fields_nosep; auto.
+Qed.
+
+(* the panic site of fieldToQualifiedROSType is not reachable *)
+Lemma line_ref_fine parent raw : no_crash (line_ref parent raw) = true.
+Proof.
+  unfold line_ref. destruct (trim_space raw) as [|b l0]; auto.
+  destruct (is_byte b 35); auto. destruct (fields_by 32 (b :: l0)) as [|ft0 fr]; auto. cbv zeta.
+  destruct (is_primitive _); auto. unfold field_to_qualified.
+  destruct (fields_by 47 _) as [|p0 [|p1 r]]; auto.
+Qed.
+
+Lemma line_ref_some parent raw q : line_ref parent raw = Ok (Some q) -> noslash parent ->
+  exists a c c1, q = join_rel [a; s_msg_word; c] /\ noslash a /\ fields_by 47 c = [c1].
+Proof.
+  unfold line_ref. destruct (trim_space raw) as [|b l0]; [discriminate|].
+  destruct (is_byte b 35); [discriminate|]. destruct (fields_by 32 (b :: l0)) as [|ft0 fr]; [discriminate|]. cbv zeta.
+  destruct (is_primitive _); [discriminate|].
+  set (ft := cut_at 60 (cut_at 91 ft0)).
+  destruct (fields_by 47 ft) eqn:Ef; [discriminate|]. intros H Hp.
+  destruct (field_to_qualified_ok ft parent) as (a & c & c1 & H1 & H2 & H3); [congruence|auto|].
+  rewrite H1 in H. cbn [bind] in H. injection H as <-. exists a, c, c1. auto.
+Qed.
+
+Lemma line_ref_good t dirs parent raw q sc : line_ref parent raw = Ok (Some q) -> noslash parent ->
+  get_schema t dirs q = Ok sc -> good t q.
+Proof.
+  intros H Hp Hs. destruct (line_ref_some _ _ _ H Hp) as (a & c & c1 & -> & Ha & Hc).
+  destruct (get_schema_ok _ _ _ _ Hs) as (P & m & C & r & Hf & Hd).
+  destruct (join_rel3_three a c c1 Ha Hc) as (H1 & H2 & H3 & H4); [rewrite Hf; simpl; lia|].
+  rewrite H4 in Hf. injection Hf as <- <- <- <-.
+  destruct (get_schema_dirs_ok _ _ _ _ _ Hd) as (d & idx & line & Hin & Hfile & Hline & Hbase).
+  exists (idx_path d a, c1 ++ s_dot_msg). split.
+  - rewrite <- Hbase. eapply keys_In; eauto.
+  - exists a, c1, d. repeat split; auto.
+Qed.
+
+Definition sd_ok (sd : subdef) : Prop := noslash (parent_of sd).
+
+Lemma parent_of_ok par q sc : noslash par -> sd_ok {| sd_parent := par; sd_type := q; sd_schema := sc |}.
+Proof.
+  intros H. unfold sd_ok, parent_of. cbn [sd_type sd_parent].
+  pose proof (split_comps 47 q) as Hs. destruct (split_byte 47 q) as [|p [|p2 r]]; auto.
+  inversion Hs; auto.
+Qed.
+
+(* ------------------------------------------------------------------------------------------ *)
+(* the scan of a definition                                                                    *)
+
+Theorem scan_lines_fine t dirs sd : forall lines seen queue,
+  no_crash (scan_lines t dirs sd lines seen queue) = true.
+Proof.
+  induction lines as [|raw rest IH]; intros seen queue; [reflexivity|].
+  rewrite scan_lines_cons. pose proof (line_ref_fine (parent_of sd) raw) as Hl.
+  destruct (line_ref (parent_of sd) raw) as [[q|]| | | |]; try discriminate; auto.
+  pose proof (get_schema_fine t dirs q) as Hg.
+  destruct (get_schema t dirs q); try discriminate; auto. cbn [bind]. apply IH.
+Qed.
+
+Lemma scan_lines_spec t dirs sd : sd_ok sd -> forall lines seen queue seen' queue',
+  scan_lines t dirs sd lines seen queue = Ok (seen', queue') ->
+  exists newq, queue' = queue ++ newq /\ seen' = seen ++ map sd_type newq /\
+    NoDup (map sd_type newq) /\
+    Forall (fun s => ~ In (sd_type s) seen /\ good t (sd_type s) /\ sd_ok s) newq.
+Proof.
+  intros Hsd. induction lines as [|raw rest IH]; intros seen queue seen' queue'.
+  - simpl. intros H. injection H as <- <-. exists []. simpl. rewrite !app_nil_r. repeat split; constructor.
+  - rewrite scan_lines_cons.
+    destruct (line_ref (parent_of sd) raw) as [[q|]| | | |] eqn:El; try discriminate; [|apply IH].
+    destruct (get_schema t dirs q) as [sc| | | |] eqn:Eg; try discriminate. cbn [bind].
+    unfold enqueue. destruct (mem_b q seen) eqn:Em; cbn [fst snd]; [apply IH|].
+    intros H. destruct (IH _ _ _ _ H) as (newq & H1 & H2 & H3 & H4).
+    exists ({| sd_parent := parent_of sd; sd_type := q; sd_schema := sc |} :: newq).
+    rewrite <- app_assoc in H1, H2. split; [exact H1|]. split; [exact H2|].
+    rewrite Forall_forall in H4. split.
+    + cbn [map sd_type]. constructor; auto. intros Hin. apply in_map_iff in Hin. destruct Hin as (s & Hs1 & Hs2).
+      destruct (H4 s Hs2) as (Hn & _). apply Hn. apply in_or_app. right. left. auto.
+    + constructor.
+      * cbn [sd_type]. split; [apply mem_b_false; exact Em|]. split.
+        -- eapply line_ref_good; eauto.
+        -- apply parent_of_ok. exact Hsd.
+      * apply Forall_forall. intros s Hs. destruct (H4 s Hs) as (Hn & Hg & Ho). split; auto.
+        intros Hin. apply Hn. apply in_or_app. auto.
+Qed.
+
+Lemma scan_lines_nil_schema t dirs sd seen queue : scan_lines t dirs sd (fields_by 10 []) seen queue = Ok (seen, queue).
+Proof. reflexivity. Qed.
+
+(* ------------------------------------------------------------------------------------------ *)
+(* the loop of getSchemas                                                                      *)
+
+Definition ends_nl (buf : bytes) : bool := match rev buf with b :: _ => is_byte b 10 | [] => false end.
+
+(* what is in the buffer before the definition of the next type is appended *)
+Definition next_buf (first : bool) (buf ty : bytes) : bytes :=
+  if first then buf
+  else (if ends_nl buf then buf else buf ++ [x0a]) ++ s_sep_line ++ s_msg_colon ++ replace_msg ty ++ [x0a].
+
+Lemma assemble_S f t dirs sd rest seen first buf :
+  assemble (S f) t dirs (sd :: rest) seen first buf =
+  let* buf1 := (if first then Ok buf
+                else match rev buf with
+                     | [] => Panic site_buffer_last
+                     | lastb :: _ => Ok ((if is_byte lastb 10 then buf else buf ++ [x0a])
+                                         ++ s_sep_line ++ s_msg_colon ++ replace_msg (sd_type sd) ++ [x0a])
+                     end) in
+  let* (seen', queue') := scan_lines t dirs sd (fields_by 10 (sd_schema sd)) seen rest in
+  assemble f t dirs queue' seen' false (buf1 ++ sd_schema sd).
+Proof. reflexivity. Qed.
+
+Lemma rev_nil_inv {A} (l : list A) : rev l = [] -> l = [].
+Proof. intros H. rewrite <- (rev_involutive l), H. reflexivity. Qed.
+
+Lemma assemble_step f t dirs sd rest seen first buf : first = true \/ buf <> [] ->
+  assemble (S f) t dirs (sd :: rest) seen first buf =
+  let* (seen', queue') := scan_lines t dirs sd (fields_by 10 (sd_schema sd)) seen rest in
+  assemble f t dirs queue' seen' false (next_buf first buf (sd_type sd) ++ sd_schema sd).
+Proof.
+  intros H. rewrite assemble_S. unfold next_buf, ends_nl. destruct first; [reflexivity|].
+  destruct H as [H|H]; [discriminate|]. destruct (rev buf) eqn:E; [apply rev_nil_inv in E; congruence|reflexivity].
+Qed.
+
+(* the buffer is not empty when something is left to append after the first definition *)
+Definition buf_inv (first : bool) (buf : bytes) (queue : list subdef) : Prop :=
+  buf <> [] \/ queue = [] \/ (first = true /\ length queue = 1).
+
+Lemma next_buf_nonempty first buf ty : first = true \/ buf <> [] -> buf <> [] -> next_buf first buf ty <> [].
+Proof.
+  intros _ Hb. unfold next_buf. destruct first; auto.
+  destruct (ends_nl buf); destruct buf; try congruence; discriminate.
+Qed.
+
+Lemma next_buf_false_nonempty buf ty : next_buf false buf ty <> [].
+Proof.
+  unfold next_buf. intros H. apply app_eq_nil in H. destruct H as [_ H].
+  apply app_eq_nil in H. destruct H as [H _]. discriminate H.
+Qed.
+
+Lemma buf_inv_first first buf queue : buf_inv first buf queue -> queue <> [] -> first = true \/ buf <> [].
+Proof. intros [H|[H|[H _]]] Hq; auto; congruence. Qed.
+
+Lemma buf_inv_step t dirs first buf sd rest seen newq :
+  buf_inv first buf (sd :: rest) ->
+  scan_lines t dirs sd (fields_by 10 (sd_schema sd)) seen rest = Ok (seen ++ map sd_type newq, rest ++ newq) ->
+  buf_inv false (next_buf first buf (sd_type sd) ++ sd_schema sd) (rest ++ newq).
+Proof.
+  intros Hi Es. destruct buf as [|b0 br].
+  - destruct Hi as [H|[H|[-> H]]]; [congruence|discriminate|].
+    destruct rest; [|discriminate H]. unfold next_buf. cbn [app].
+    destruct (sd_schema sd) eqn:E; [|left; discriminate].
+    right. left. rewrite scan_lines_nil_schema in Es. injection Es as _ Hq. symmetry. exact Hq.
+  - left. intros H. apply app_eq_nil in H. destruct H as [H _].
+    destruct first; [discriminate H|]. exact (next_buf_false_nonempty _ _ H).
+Qed.
+
+Lemma NoDup_app_intro {A} (a b : list A) : NoDup a -> NoDup b -> (forall x, In x a -> ~ In x b) -> NoDup (a ++ b).
+Proof.
+  induction 1 as [|x a Hx Ha IH]; intros Hb Hd; simpl; auto.
+  constructor.
+  - intros Hin. apply in_app_or in Hin. destruct Hin as [Hin|Hin]; [contradiction|]. apply (Hd x); simpl; auto.
+  - apply IH; auto. intros y Hy. apply Hd. simpl; auto.
+Qed.
+
+Definition no_panic_exit {A} (x : outcome A) : Prop := match x with Panic _ | Exit _ => False | _ => True end.
+
+(* for every amount of fuel: from a state that satisfies the buffer invariant the loop does not reach the buffer
+   access with an empty buffer *)
+Theorem assemble_no_panic t dirs : forall fuel queue seen first buf,
+  buf_inv first buf queue -> Forall sd_ok queue ->
+  no_panic_exit (assemble fuel t dirs queue seen first buf).
+Proof.
+  induction fuel as [|f IH]; intros queue seen first buf Hi Hq; [exact I|].
+  destruct queue as [|sd rest]; [exact I|].
+  rewrite assemble_step by (apply (buf_inv_first _ _ _ Hi); discriminate).
+  pose proof (scan_lines_fine t dirs sd (fields_by 10 (sd_schema sd)) seen rest) as Hf.
+  destruct (scan_lines t dirs sd (fields_by 10 (sd_schema sd)) seen rest) as [[seen' queue']| | | |] eqn:Es;
+    try discriminate Hf; [|exact I].
+  cbn [bind]. inversion Hq as [|? ? Hsd Hrest]; subst.
+  destruct (scan_lines_spec t dirs sd Hsd _ _ _ _ _ Es) as (newq & -> & -> & Hnd & Hall).
+  apply IH.
+  - eapply buf_inv_step; eauto.
+  - apply Forall_app. split; auto. eapply Forall_impl; [|exact Hall]. intros s (_ & _ & H). exact H.
+Qed.
+
+(* and the fuel suffices when it covers the queue, the index lines not yet used, and the final test *)
+Theorem assemble_fine t dirs : forall fuel queue seen first buf added,
+  buf_inv first buf queue -> Forall sd_ok queue ->
+  NoDup added -> incl added seen -> Forall (good t) added ->
+  length queue + (length (keys t) - length added) + 1 <= fuel ->
+  no_crash (assemble fuel t dirs queue seen first buf) = true.
+Proof.
+  induction fuel as [|f IH]; intros queue seen first buf added Hi Hq Hnd Hincl Hgood Hfuel; [lia|].
+  destruct queue as [|sd rest]; [reflexivity|].
+  rewrite assemble_step by (apply (buf_inv_first _ _ _ Hi); discriminate).
+  pose proof (scan_lines_fine t dirs sd (fields_by 10 (sd_schema sd)) seen rest) as Hf.
+  destruct (scan_lines t dirs sd (fields_by 10 (sd_schema sd)) seen rest) as [[seen' queue']| | | |] eqn:Es;
+    try discriminate Hf; [|reflexivity].
+  cbn [bind]. inversion Hq as [|? ? Hsd Hrest]; subst.
+  destruct (scan_lines_spec t dirs sd Hsd _ _ _ _ _ Es) as (newq & -> & -> & Hnd' & Hall).
+  assert (Hnd2 : NoDup (added ++ map sd_type newq)).
+  { apply NoDup_app_intro; auto. intros x Hx Hin. apply in_map_iff in Hin. destruct Hin as (s & <- & Hs).
+    rewrite Forall_forall in Hall. destruct (Hall s Hs) as (Hn & _). apply Hn. apply Hincl. exact Hx. }
+  assert (Hg2 : Forall (good t) (added ++ map sd_type newq)).
+  { apply Forall_app. split; auto. apply Forall_forall. intros x Hin. apply in_map_iff in Hin.
+    destruct Hin as (s & <- & Hs). rewrite Forall_forall in Hall. destruct (Hall s Hs) as (_ & Hg & _). exact Hg. }
+  apply IH with (added := added ++ map sd_type newq); auto.
+  - eapply buf_inv_step; eauto.
+  - apply Forall_app. split; auto. eapply Forall_impl; [|exact Hall]. intros s (_ & _ & H). exact H.
+  - apply incl_app; [apply incl_appl; exact Hincl|apply incl_appr; apply incl_refl].
+  - pose proof (good_bound t _ Hnd2 Hg2) as Hb. rewrite app_length, map_length in Hb. rewrite !app_length, map_length. simpl in Hfuel. lia.
+Qed.
+
+(* the invariant is needed: a state that get_schema_for never creates (two queued definitions, the first one
+   empty, nothing written yet) reaches the buffer access with an empty buffer *)
+Example assemble_panic_outside_invariant :
+  let sd := {| sd_parent := []; sd_type := []; sd_schema := [] |} in
+  assemble 3 {| ft_files := []; ft_dirs := [] |} [] [sd; sd] [] true [] = Panic site_buffer_last.
+Proof. reflexivity. Qed.
+
+Lemma root_sd_ok ty sc : sd_ok {| sd_parent := hd [] (split_byte 47 ty); sd_type := ty; sd_schema := sc |}.
+Proof.
+  apply parent_of_ok. pose proof (split_comps 47 ty) as H. destruct (split_byte 47 ty); [reflexivity|].
+  inversion H; auto.
+Qed.
+
+(* getSchemas, one type: no crash for any tree, any search directories, any type name, with the fuel of the model *)
+Theorem get_schema_for_fine t dirs ty : no_crash (get_schema_for t dirs ty) = true.
+Proof.
+  unfold get_schema_for. pose proof (get_schema_fine t dirs ty) as Hf.
+  destruct (get_schema t dirs ty) as [sc| | | |]; try discriminate Hf; [|reflexivity].
+  cbn [bind]. apply assemble_fine with (added := []).
+  - right. right. auto.
+  - constructor; [apply root_sd_ok|constructor].
+  - constructor.
+  - intros x [].
+  - constructor.
+  - pose proof (keys_weight t). simpl. lia.
+Qed.
+
+Theorem get_schemas_fine t dirs : forall types acc, no_crash (get_schemas t dirs types acc) = true.
+Proof.
+  induction types as [|ty r IH]; intros acc; [reflexivity|]. cbn [get_schemas].
+  pose proof (get_schema_for_fine t dirs ty) as Hf.
+  destruct (get_schema_for t dirs ty); try discriminate Hf; [|reflexivity]. cbn [bind]. apply IH.
+Qed.
+
+(* ------------------------------------------------------------------------------------------ *)
+(* part 2: DB3ToMCAP with the schema assembly inside                                           *)
+
+Theorem db3_to_mcap_fs_cases o lib compress t dirs topics msgs :
+  let types := map t_type (filter (fun x => is_message_type (t_type x)) topics) in
+  match get_schemas t dirs types [] with
+  | Ok l => db3_to_mcap_fs o lib compress t dirs topics msgs = Ok (db3_to_mcap o lib compress topics (Some l) msgs)
+  | Err _ => exists r, db3_to_mcap_fs o lib compress t dirs topics msgs = Ok r /\
+                       r = db3_to_mcap o lib compress topics None msgs /\
+                       dr_err r = Some EOther /\ dr_writes r = []
+  | _ => False
+  end.
+Proof.
+  intros types. unfold db3_to_mcap_fs. fold types.
+  pose proof (get_schemas_fine t dirs types []) as Hf.
+  destruct (get_schemas t dirs types []); try discriminate Hf; [reflexivity|].
+  eexists. split; [reflexivity|]. split; [reflexivity|]. apply db3_err_schemas_failed.
+Qed.
+
+Theorem db3_to_mcap_fs_total o lib compress t dirs topics msgs :
+  exists r, db3_to_mcap_fs o lib compress t dirs topics msgs = Ok r.
+Proof.
+  pose proof (db3_to_mcap_fs_cases o lib compress t dirs topics msgs) as H. cbv zeta in H.
+  destruct (get_schemas t dirs _ []); try contradiction; [eauto|]. destruct H as (r & H & _). eauto.
+Qed.
+
+(* ------------------------------------------------------------------------------------------ *)
+(* part 3: functional correctness on trees that realise an abstract universe of definitions    *)
+(* ------------------------------------------------------------------------------------------ *)
+
+(* --- the abstract universe --- *)
+Inductive ftype := FPrim (p : bytes) | FLocal (name : bytes) | FQual (pkg name : bytes).
+(* a line of a definition: "#text", "", or "<type><suffix> <rest>" (suffix: array / bound; rest: field name, default
+   value, trailing comment) *)
+Inductive dline := DComment (text : bytes) | DEmpty | DField (ty : ftype) (suffix : bytes) (rest : bytes).
+Record mdef := { md_pkg : bytes; md_name : bytes; md_lines : list dline }.
+
+Definition ftype_text (ty : ftype) : bytes :=
+  match ty with FPrim p => p | FLocal n => n | FQual p n => p ++ x2f :: n end.
+Definition render_dline (l : dline) : bytes :=
+  match l with
+  | DComment text => x23 :: text
+  | DEmpty => []
+  | DField ty suffix rest => ftype_text ty ++ suffix ++ x20 :: rest
+  end.
+(* "pkg/msg/Name" *)
+Definition type_of (d : mdef) : bytes := join_slash [md_pkg d; s_msg_word; md_name d].
+(* the lines joined by newlines: a final DEmpty gives a text that ends in a newline *)
+Definition text_of (d : mdef) : bytes := join_nl (map render_dline (md_lines d)).
+
+Definition ref_of (pkg : bytes) (l : dline) : option bytes :=
+  match l with
+  | DField (FLocal n) _ _ => Some (join_slash [pkg; s_msg_word; n])
+  | DField (FQual p n) _ _ => Some (join_slash [p; s_msg_word; n])
+  | _ => None
+  end.
+Definition opt_list {A} (o : option A) : list A := match o with Some x => [x] | None => [] end.
+Definition refs_of_lines (pkg : bytes) (ls : list dline) : list bytes := flat_map (fun l => opt_list (ref_of pkg l)) ls.
+Definition refs_of (d : mdef) : list bytes := refs_of_lines (md_pkg d) (md_lines d).
+
+Fixpoint lookup (defs : list mdef) (q : bytes) : option mdef :=
+  match defs with [] => None | d :: r => if bytes_eqb (type_of d) q then Some d else lookup r q end.
+
+(* --- the specification: breadth-first order, first occurrence only --- *)
+Fixpoint fresh (refs seen : list bytes) : list bytes :=
+  match refs with
+  | [] => []
+  | q :: r => if mem_b q seen then fresh r seen else q :: fresh r (seen ++ [q])
+  end.
+
+Fixpoint bfs (fuel : nat) (defs : list mdef) (queue seen : list bytes) : list bytes :=
+  match fuel with
+  | O => []
+  | S f =>
+    match queue with
+    | [] => []
+    | q :: rest =>
+      let new := fresh (match lookup defs q with Some d => refs_of d | None => [] end) seen in
+      q :: bfs f defs (rest ++ new) (seen ++ new)
+    end
+  end.
+Definition bfs_order (defs : list mdef) (ty : bytes) : list bytes := bfs (length defs) defs [ty] [ty].
+
+(* 80 '=' and a newline, "MSG: pkg/Name" and a newline *)
+Definition header (d : mdef) : bytes := s_sep_line ++ s_msg_colon ++ md_pkg d ++ x2f :: md_name d ++ [x0a].
+Fixpoint render_rest (buf : bytes) (ds : list mdef) : bytes :=
+  match ds with
+  | [] => buf
+  | d :: r => render_rest ((if ends_nl buf then buf else buf ++ [x0a]) ++ header d ++ text_of d) r
+  end.
+Definition render_defs (ds : list mdef) : bytes :=
+  match ds with [] => [] | d :: r => render_rest (text_of d) r end.
+Definition lookup_all (defs : list mdef) (qs : list bytes) : list mdef := flat_map (fun q => opt_list (lookup defs q)) qs.
+Definition expected_schema (defs : list mdef) (ty : bytes) : bytes :=
+  render_defs (lookup_all defs (bfs_order defs ty)).
+
+(* --- the tree: one search directory, an index file per package, a file per definition --- *)
+Fixpoint dedup (l : list bytes) : list bytes :=
+  match l with [] => [] | x :: r => if mem_b x r then dedup r else x :: dedup r end.
+Definition pkgs (defs : list mdef) : list bytes := dedup (map md_pkg defs).
+Definition s_msg_slash : bytes := s_msg_word ++ [x2f].
+Definition index_line (d : mdef) : bytes := s_msg_slash ++ md_name d ++ s_dot_msg.
+Definition index_text (defs : list mdef) (p : bytes) : bytes :=
+  join_nl (map index_line (filter (fun d => bytes_eqb (md_pkg d) p) defs)).
+Definition index_file (dir : list bytes) (defs : list mdef) (p : bytes) : list bytes * bytes :=
+  (dir ++ [s_share; s_ament_index; s_resource_index; s_rosidl; p], index_text defs p).
+Definition def_file (dir : list bytes) (d : mdef) : list bytes * bytes :=
+  (dir ++ [s_share; md_pkg d; s_msg_word; md_name d ++ s_dot_msg], text_of d).
+Definition tree_of (dir : list bytes) (defs : list mdef) : fstree :=
+  {| ft_files := map (index_file dir defs) (pkgs defs) ++ map (def_file dir) defs; ft_dirs := [] |}.
+
+(* --- well-formedness --- *)
+(* bytes of package and type names: visible ASCII except '/', '.', '[', '<', '#' *)
+Definition nm_byte (b : byte) : bool :=
+  ascii_vis b && negb (is_byte b 47) && negb (is_byte b 46) && negb (is_byte b 91) && negb (is_byte b 60)
+  && negb (is_byte b 35).
+Definition pkg_ok (s : bytes) : bool := nonempty_b s && forallb nm_byte s.
+Definition name_ok (s : bytes) : bool := nonempty_b s && forallb nm_byte s && negb (is_primitive s).
+(* "" or '[' ... or '<' ... without white space *)
+Definition suffix_ok (s : bytes) : bool :=
+  match s with [] => true | b :: _ => (is_byte b 91 || is_byte b 60) && forallb ascii_vis s end.
+(* after the type: not empty, no newline, the last byte is visible ASCII *)
+Definition rest_ok (r : bytes) : bool := nonempty_b r && negb (contains_byte 10 r) && ascii_vis (last r x20).
+Definition comment_ok (c : bytes) : bool := negb (contains_byte 10 c) && ascii_vis (last c x23).
+Definition ftype_ok (ty : ftype) : bool :=
+  match ty with FPrim p => is_primitive p | FLocal n => name_ok n | FQual p n => pkg_ok p && name_ok n end.
+Definition dline_ok (l : dline) : bool :=
+  match l with
+  | DComment c => comment_ok c
+  | DEmpty => true
+  | DField ty suf rest => ftype_ok ty && suffix_ok suf && rest_ok rest
+  end.
+Definition mdef_ok (d : mdef) : bool := pkg_ok (md_pkg d) && name_ok (md_name d) && forallb dline_ok (md_lines d).
+(* names and lines well formed; distinct (package, name) pairs; every reference resolvable *)
+Definition wf_defs (defs : list mdef) : bool :=
+  forallb mdef_ok defs && nodup_b (map type_of defs)
+  && forallb (fun d => forallb (fun q => mem_b q (map type_of defs)) (refs_of d)) defs.
+
+(* ------------------------------------------------------------------------------------------ *)
+(* names                                                                                       *)
+
+Lemma nm_byte_props b : nm_byte b = true ->
+  ascii_vis b = true /\ is_byte b 47 = false /\ is_byte b 46 = false /\ is_byte b 91 = false /\
+  is_byte b 60 = false /\ is_byte b 35 = false.
+Proof. unfold nm_byte. rewrite !andb_true_iff, !negb_true_iff. tauto. Qed.
+
+Lemma nm_props s : pkg_ok s = true ->
+  s <> [] /\ noslash s /\ s <> s_dot /\ s <> s_dotdot /\ contains_byte 91 s = false /\ contains_byte 60 s = false /\
+  contains_byte 35 s = false /\ forallb ascii_vis s = true.
+Proof.
+  unfold pkg_ok. rewrite andb_true_iff. intros [H1 H2].
+  assert (H46 : contains_byte 46 s = false).
+  { eapply forallb_contains; [|exact H2]. intros b Hb. apply nm_byte_props in Hb. tauto. }
+  split; [destruct s; [discriminate|congruence]|].
+  split; [eapply forallb_contains; [|exact H2]; intros b Hb; apply nm_byte_props in Hb; tauto|].
+  split; [intros ->; discriminate H46|]. split; [intros ->; discriminate H46|].
+  split; [eapply forallb_contains; [|exact H2]; intros b Hb; apply nm_byte_props in Hb; tauto|].
+  split; [eapply forallb_contains; [|exact H2]; intros b Hb; apply nm_byte_props in Hb; tauto|].
+  split; [eapply forallb_contains; [|exact H2]; intros b Hb; apply nm_byte_props in Hb; tauto|].
+  eapply forallb_imp; [|exact H2]. intros b Hb. apply nm_byte_props in Hb. tauto.
+Qed.
+
+Lemma name_pkg_ok s : name_ok s = true -> pkg_ok s = true /\ is_primitive s = false.
+Proof. unfold name_ok, pkg_ok. rewrite !andb_true_iff, negb_true_iff. tauto. Qed.
+
+Lemma nm_comp_ok s : pkg_ok s = true -> comp_ok s.
+Proof. intros H. apply nm_props in H. split; tauto. Qed.
+
+Lemma prim_props p : is_primitive p = true -> pkg_ok p = true.
+Proof.
+  unfold is_primitive. rewrite mem_b_In. intros H.
+  assert (Hall : forallb pkg_ok primitives = true) by (vm_compute; reflexivity).
+  exact (forallb_In _ _ _ Hall H).
+Qed.
+
+Lemma vis_contains c s : (forall b, ascii_vis b = true -> is_byte b c = false) -> forallb ascii_vis s = true -> contains_byte c s = false.
+Proof. intros H. apply forallb_contains. exact H. Qed.
+
+Lemma vis_no32 s : forallb ascii_vis s = true -> contains_byte 32 s = false.
+Proof. apply vis_contains. intros b Hb. apply vis_props in Hb. tauto. Qed.
+Lemma vis_no10 s : forallb ascii_vis s = true -> contains_byte 10 s = false.
+Proof. apply vis_contains. intros b Hb. apply vis_props in Hb. tauto. Qed.
+
+(* ------------------------------------------------------------------------------------------ *)
+(* strings                                                                                     *)
+
+Lemma rev_last_cons {A} (s : list A) d : s <> [] -> rev s = last s d :: rev (removelast s).
+Proof. intros H. rewrite (app_removelast_last d H) at 1. rewrite rev_app_distr. reflexivity. Qed.
+
+Lemma last_app_ne {A} (l1 l2 : list A) d : l2 <> [] -> last (l1 ++ l2) d = last l2 d.
+Proof.
+  intros H. induction l1 as [|x l1 IH]; [reflexivity|]. simpl.
+  destruct (l1 ++ l2) eqn:E; [apply app_eq_nil in E; destruct E; congruence|exact IH].
+Qed.
+
+Lemma last_cons_same {A} (x : A) l : last (x :: l) x = last l x.
+Proof. destruct l; reflexivity. Qed.
+
+Lemma last_default {A} (l : list A) d d' : l <> [] -> last l d = last l d'.
+Proof. induction l as [|x l IH]; [congruence|]. intros _. destruct l; [reflexivity|]. apply IH. discriminate. Qed.
+
+(* a line that starts and ends with visible ASCII is not changed by TrimSpace *)
+Lemma trim_plain b r : ascii_vis b = true -> ascii_vis (last (b :: r) b) = true -> trim_space (b :: r) = b :: r.
+Proof.
+  intros H1 H2. apply trim_space_id; [apply vis_lead; exact H1|].
+  rewrite (rev_last_cons (b :: r) b) by discriminate. apply vis_trail. exact H2.
+Qed.
+
+Lemma fields_sep sep a x r : a <> [] -> contains_byte sep a = false -> is_byte x sep = true ->
+  fields_by sep (a ++ x :: r) = a :: fields_by sep r.
+Proof.
+  intros H1 H2 H3. rewrite !fields_filter, split_sep by auto. destruct a; [congruence|reflexivity].
+Qed.
+
+Lemma cut_at_none c s : contains_byte c s = false -> cut_at c s = s.
+Proof. intros H. unfold cut_at, index_byte. rewrite index_aux_none by exact H. reflexivity. Qed.
+
+Lemma cut_at_some c a x r : a <> [] -> contains_byte c a = false -> is_byte x c = true -> cut_at c (a ++ x :: r) = a.
+Proof.
+  intros H1 H2 H3. unfold cut_at, index_byte. rewrite index_aux_some by auto.
+  destruct a as [|a0 ar]; [congruence|]. cbn [length Nat.add].
+  change (S (length ar)) with (length (a0 :: ar)). apply firstn_app_exact.
+Qed.
+
+Lemma contains_split c s : contains_byte c s = true ->
+  exists s1 y s2, s = s1 ++ y :: s2 /\ contains_byte c s1 = false /\ is_byte y c = true.
+Proof.
+  induction s as [|b s IH]; simpl; [discriminate|].
+  destruct (is_byte b c) eqn:E.
+  - intros _. exists [], b, s. auto.
+  - simpl. intros H. destruct (IH H) as (s1 & y & s2 & -> & H1 & H2).
+    exists (b :: s1), y, s2. simpl. rewrite E, H1. auto.
+Qed.
+
+Lemma cut_at_keep c a s : a <> [] -> contains_byte c a = false -> exists s', cut_at c (a ++ s) = a ++ s'.
+Proof.
+  intros H1 H2. destruct (contains_byte c s) eqn:E.
+  - destruct (contains_split c s E) as (s1 & y & s2 & -> & H3 & H4).
+    exists s1. rewrite app_assoc. apply cut_at_some; auto.
+    + destruct a; [congruence|discriminate].
+    + rewrite contains_byte_app, H2, H3. reflexivity.
+  - exists s. apply cut_at_none. rewrite contains_byte_app, H2, E. reflexivity.
+Qed.
+
+(* the type of a field: "[...": array, "<...": bound *)
+Lemma cut_token base suf : base <> [] -> contains_byte 91 base = false -> contains_byte 60 base = false ->
+  suffix_ok suf = true -> cut_at 60 (cut_at 91 (base ++ suf)) = base.
+Proof.
+  intros H1 H2 H3 Hs. destruct suf as [|x sr].
+  - rewrite app_nil_r, (cut_at_none 91 base H2), (cut_at_none 60 base H3). reflexivity.
+  - simpl in Hs. apply andb_true_iff in Hs. destruct Hs as [Hx _].
+    destruct (is_byte x 91) eqn:E91.
+    + rewrite cut_at_some by auto. apply cut_at_none. exact H3.
+    + simpl in Hx. destruct (cut_at_keep 91 (base ++ [x]) sr) as (s' & Hc).
+      * destruct base; discriminate.
+      * rewrite contains_byte_app, H2. simpl. rewrite E91. reflexivity.
+      * rewrite <- app_assoc in Hc. cbn [app] in Hc. rewrite Hc, <- app_assoc. cbn [app].
+        apply cut_at_some; auto.
+Qed.
+
+Lemma join_rel_normal a c1 : comp_ok a -> a <> s_dot -> a <> s_dotdot -> comp_ok c1 -> c1 <> s_dot -> c1 <> s_dotdot ->
+  join_rel [a; s_msg_word; c1] = join_slash [a; s_msg_word; c1].
+Proof.
+  intros [Ha1 Ha2] Ha3 Ha4 [Hc1 Hc2] Hc3 Hc4.
+  rewrite (join_rel3 a c1 c1 Ha2 (fields_nosep 47 c1 Hc1 Hc2)).
+  apply bytes_eqb_false in Ha3, Ha4, Hc3, Hc4.
+  destruct a as [|a0 ar]; [congruence|]. destruct c1 as [|d0 dr]; [congruence|].
+  rewrite s_msg_word_eq. cbn [filter nonempty_b app clean_rel].
+  rewrite Ha3, Ha4, Hc3, Hc4.
+  change (bytes_eqb [x6d; x73; x67] s_dot) with false. change (bytes_eqb [x6d; x73; x67] s_dotdot) with false.
+  reflexivity.
+Qed.
+
+(* ------------------------------------------------------------------------------------------ *)
+(* one rendered line                                                                           *)
+
+Lemma line_ref_token pkg base suf rest :
+  base <> [] -> forallb ascii_vis base = true -> contains_byte 35 base = false ->
+  contains_byte 91 base = false -> contains_byte 60 base = false ->
+  suffix_ok suf = true -> rest_ok rest = true ->
+  line_ref pkg (base ++ suf ++ x20 :: rest) =
+  if is_primitive base then Ok None
+  else if match fields_by 47 base with [] => true | _ => false end then Err EOther
+       else let* q := field_to_qualified base pkg in Ok (Some q).
+Proof.
+  intros Hne Hvis H35 H91 H60 Hsuf Hrest.
+  unfold rest_ok in Hrest. rewrite !andb_true_iff, negb_true_iff in Hrest. destruct Hrest as [[Hr1 Hr2] Hr3].
+  assert (Hrne : rest <> []) by (destruct rest; [discriminate|congruence]).
+  assert (Hsv : forallb ascii_vis suf = true).
+  { destruct suf; [reflexivity|]. simpl in Hsuf. apply andb_true_iff in Hsuf. tauto. }
+  assert (Htok : forallb ascii_vis (base ++ suf) = true) by (rewrite forallb_app, Hvis, Hsv; reflexivity).
+  destruct base as [|b0 br]; [congruence|].
+  assert (Hb0 : ascii_vis b0 = true) by (simpl in Hvis; apply andb_true_iff in Hvis; tauto).
+  assert (Hb35 : is_byte b0 35 = false) by (simpl in H35; apply orb_false_iff in H35; tauto).
+  unfold line_ref. rewrite app_assoc.
+  change (((b0 :: br) ++ suf) ++ x20 :: rest) with (b0 :: (br ++ suf) ++ x20 :: rest).
+  rewrite trim_plain; [|exact Hb0|].
+  2:{ change (b0 :: (br ++ suf) ++ x20 :: rest) with (((b0 :: br) ++ suf) ++ [x20] ++ rest).
+      rewrite app_assoc, (last_app_ne _ rest b0 Hrne), (last_default rest b0 x20 Hrne). exact Hr3. }
+  rewrite Hb35.
+  change (b0 :: (br ++ suf) ++ x20 :: rest) with (((b0 :: br) ++ suf) ++ x20 :: rest).
+  rewrite fields_sep; [|discriminate|apply vis_no32; exact Htok|reflexivity].
+  cbv zeta. rewrite cut_token by (auto; discriminate). reflexivity.
+Qed.
+
+Theorem line_ref_render pkg l : pkg_ok pkg = true -> dline_ok l = true ->
+  line_ref pkg (render_dline l) = Ok (ref_of pkg l).
+Proof.
+  intros Hpkg Hl. destruct l as [c| |ty suf rest].
+  - simpl in Hl. unfold comment_ok in Hl. rewrite andb_true_iff in Hl. destruct Hl as [_ Hl].
+    unfold line_ref. cbn [render_dline]. rewrite trim_plain; [reflexivity|reflexivity|].
+    rewrite last_cons_same. exact Hl.
+  - reflexivity.
+  - cbn [dline_ok] in Hl. rewrite !andb_true_iff in Hl. destruct Hl as [[Hty Hsuf] Hrest].
+    cbn [render_dline ref_of].
+    pose proof (nm_props pkg Hpkg) as (P1 & P2 & P3 & P4 & _).
+    destruct ty as [p|n|p n]; cbn [ftype_ok ftype_text] in *.
+    + pose proof (nm_props p (prim_props p Hty)) as (H1 & H2 & H3 & H4 & H5 & H6 & H7 & H8).
+      rewrite line_ref_token by auto. rewrite Hty. reflexivity.
+    + destruct (name_pkg_ok n Hty) as [Hn Hnp].
+      pose proof (nm_props n Hn) as (H1 & H2 & H3 & H4 & H5 & H6 & H7 & H8).
+      rewrite line_ref_token by auto. rewrite Hnp, (fields_nosep 47 n H1 H2).
+      unfold field_to_qualified. rewrite (fields_nosep 47 n H1 H2). cbn [bind].
+      rewrite join_rel_normal by (auto; split; auto). reflexivity.
+    + apply andb_true_iff in Hty. destruct Hty as [Hp Hty]. destruct (name_pkg_ok n Hty) as [Hn Hnp].
+      pose proof (nm_props n Hn) as (H1 & H2 & H3 & H4 & H5 & H6 & H7 & H8).
+      pose proof (nm_props p Hp) as (G1 & G2 & G3 & G4 & G5 & G6 & G7 & G8).
+      assert (Hf : fields_by 47 (p ++ x2f :: n) = [p; n]).
+      { rewrite fields_sep by (auto; reflexivity). rewrite fields_nosep by auto. reflexivity. }
+      rewrite line_ref_token.
+      * destruct (is_primitive (p ++ x2f :: n)) eqn:Ep.
+        { apply prim_props, nm_props in Ep. destruct Ep as (_ & Ep & _). unfold noslash in Ep.
+          rewrite contains_byte_app in Ep. simpl in Ep. rewrite orb_true_r in Ep. discriminate. }
+        rewrite Hf. unfold field_to_qualified. rewrite Hf. cbn [bind].
+        rewrite join_rel_normal by (auto; split; auto). reflexivity.
+      * destruct p; [congruence|discriminate].
+      * rewrite forallb_app. cbn [forallb]. rewrite G8, H8. reflexivity.
+      * rewrite contains_byte_app. cbn [contains_byte]. rewrite G7, H7. reflexivity.
+      * rewrite contains_byte_app. cbn [contains_byte]. rewrite G5, H5. reflexivity.
+      * rewrite contains_byte_app. cbn [contains_byte]. rewrite G6, H6. reflexivity.
+      * exact Hsuf.
+      * exact Hrest.
 Qed.
